@@ -7,7 +7,7 @@ using namespace hm;
 namespace hx_vmap {
 namespace xp = xenium::policy;
 
-enum { OP_EXTRACT = 20, OP_TRY_GET = 21, OP_FIND_IT = 22 };
+enum { OP_EXTRACT = 20, OP_TRY_GET = 21, OP_FIND_IT = 22, OP_ERASE_FOUND = 23 }; // 23: erase(find(key))
 
 struct IVM {
   virtual ~IVM() = default;
@@ -17,6 +17,7 @@ struct IVM {
   virtual std::pair<bool, int> extract(int k) = 0;
   virtual std::pair<bool, int> try_get(int k) = 0;
   virtual std::pair<bool, int> find_it(int k) = 0;
+  virtual std::pair<bool, int> erase_found(int k) = 0;
   virtual void traverse(const IHM::TCb& cb, bool move_assign) = 0;
 };
 
@@ -124,6 +125,19 @@ struct VM : IVM {
     it.reset();
     return {true, r};
   }
+  std::pair<bool, int> erase_found(int k) override {
+    auto it = m.find(KC<K>::to(k));
+    if (it == m.end()) return {false, 0};
+    int r;
+    {
+      auto&& e = *it;
+      if (KC<K>::from(e.first) != k) xsim::fail("wrong-element", "find(%d) returned an iterator to another key", k);
+      r = VP::read_val(e.second);
+    }
+    m.erase(it);
+    it.reset();
+    return {true, r};
+  }
   void traverse(const IHM::TCb& cb, bool move_assign) override {
     cb.pre_step();
     auto it = m.begin();
@@ -199,6 +213,13 @@ struct VModel : MapModel {
       case OP_FIND_IT:
         if (o.status == 1) return present && it->second == (int)o.r0;
         return !present;
+      case OP_ERASE_FOUND:
+        if (o.status == 1) {
+          if (!present || it->second != (int)o.r0) return false;
+          s.erase(it);
+          return true;
+        }
+        return !present;
     }
     return MapModel::step(s, o);
   }
@@ -207,7 +228,7 @@ struct VModel : MapModel {
     OpRec t = o;
     t.status = 1;
     t.r0 = o.b;
-    if (o.kind == OP_EXTRACT || o.kind == OP_ERASE) {
+    if (o.kind == OP_EXTRACT || o.kind == OP_ERASE || o.kind == OP_ERASE_FOUND) {
       s.erase((int)o.a);
       return true;
     }
@@ -236,6 +257,7 @@ public:
       case OP_EXTRACT: return "extract";
       case OP_TRY_GET: return "try_get_value";
       case OP_FIND_IT: return "find";
+      case OP_ERASE_FOUND: return "erase(find)";
       case OP_ERASE_POS: return "erase(iterator)";
       case OP_ITER_NEXT: return "iter_next";
       case OP_TRAVERSE: return "traverse";
@@ -289,7 +311,8 @@ public:
         else if (r < 38) o = Op{OP_GET_OR_EMPLACE_LAZY, k, nextv++, 0};
         else if (r < 55) o = Op{OP_ERASE, k, 0, 0};
         else if (r < 65) o = Op{OP_EXTRACT, k, 0, 0};
-        else if (r < 90) o = Op{OP_TRY_GET, k, 0, 0};
+        else if (r < 85) o = Op{OP_TRY_GET, k, 0, 0};
+        else if (r < 91) o = Op{OP_ERASE_FOUND, k, 0, 0};
         else o = Op{OP_FIND_IT, k, 0, 0};
         p.threads[t].ops.push_back(o);
       }
@@ -341,6 +364,12 @@ public:
       case OP_FIND_IT: {
         op_begin(op.kind, k);
         auto r = m->find_it(key(k));
+        op_end(r.first, r.second);
+        break;
+      }
+      case OP_ERASE_FOUND: {
+        op_begin(op.kind, k);
+        auto r = m->erase_found(key(k));
         op_end(r.first, r.second);
         break;
       }
@@ -464,7 +493,7 @@ void VHarness::check(CheckCtx& c) {
       for (int e = 0; e < h.n && !maybe_gone; e++) {
         const OpRec& E = h.ops[e];
         if (E.a != I.a) continue;
-        bool is_erase = ((E.kind == OP_ERASE || E.kind == OP_EXTRACT) && E.status == 1) || E.kind == OP_ERASE_POS;
+        bool is_erase = ((E.kind == OP_ERASE || E.kind == OP_EXTRACT || E.kind == OP_ERASE_FOUND) && E.status == 1) || E.kind == OP_ERASE_POS;
         if (is_erase && !h.precedes(T, E)) maybe_gone = true;
       }
       if (maybe_gone) continue;
@@ -483,7 +512,7 @@ void VHarness::check(CheckCtx& c) {
         const OpRec& o = h.ops[i];
         if (o.status < 0 || o.tid == T.tid) continue;
         bool update = o.kind == OP_EMPLACE || o.kind == OP_GET_OR_EMPLACE || o.kind == OP_GET_OR_EMPLACE_LAZY || o.kind == OP_ERASE ||
-                      o.kind == OP_EXTRACT || o.kind == OP_FIND_IT;
+                      o.kind == OP_EXTRACT || o.kind == OP_FIND_IT || o.kind == OP_ERASE_FOUND;
         if (update && o.inv > lo && o.resp < hi && !o.pending)
           return c.fail("iterator-not-exclusive", "%s(%ld) of T%d began and completed [%lu..%lu] while the iterator of T%d held the bucket [%lu..%lu]",
                         op_name(o.kind), (long)o.a, o.tid, (unsigned long)o.inv, (unsigned long)o.resp, T.tid, (unsigned long)lo, (unsigned long)hi);
